@@ -63,6 +63,9 @@ CASES = [
     ('nested_ternary', [('a', I, _ints), ('b', I, _ints)], I), ('both_negative_division', [('a', I, _ints), ('b', I, lambda r: r.choice([-5, -3, -2, -1, 2, 7]))], T.Tuple(I, I)),
     ('int_of_negative', [('x', R, _flt)], I), ('float_abs_min', [('x', R, _flt), ('y', R, _flt)], R), ('string_compare_chain', [('s', S, _str), ('t', S, _str), ('u', S, _str)], I),
     ('accumulate_in_try', [('xs', MLI, _ilist)], I), ('or_default', [('a', I, _ints), ('b', I, _ints)], I),
+    ('split_once', [('s', S, lambda r: r.choice(['', ':', 'a:b', 'Pair:A-B=1', 'a:b:c', 'ab', ':x', 'x:', '::']))], I),
+    ('split_once_unpack', [('s', S, lambda r: r.choice(['a=b', 'k=v=w', '=', 'abc', '', '=x'])), ('k', S, lambda r: r.choice(['a', 'k', '']))], I),
+    ('subscript_optional', [('xs', T.Opt(LI), lambda r: r.choice([None, [], [4], [2, 9]]))], I),
 ]
 SAFETY_KINDS = ('index', 'unpack', 'div', 'not-none', 'call-pre', 'zero')
 
